@@ -3,5 +3,6 @@ CONSTANTS
   P <- PFromTrace
   J <- JFromTrace
   R <- RFromTrace
+  BossWorks <- BossFromTrace
 INVARIANTS TypeOK ExactlyOnce AtMostOnce MapTruthful MapComplete RealJobs Drained StackSound FinishSafe NotAccepted
 CHECK_DEADLOCK FALSE
